@@ -153,7 +153,7 @@ func combinePorts(as string, bs string) (string, error) {
 	bBitset := parsePorts(bs)
 
 	aBitset.InPlaceIntersection(bBitset)
-	if aBitset.Len() == 0 {
+	if aBitset.None() {
 		return "", policysets.ErrRuleIsNoOp
 	}
 
